@@ -197,10 +197,35 @@ def handleDot (j : Json) : Json :=
       ("tokprobe", jlist ((jarr j "tokprobe").map (fun t =>
         jstrs (tokenRequired ⟨jstr t "text", .python (codeOf (jval t "code"))⟩))))] ++ namedJ L (strs j "probe"))
 
+/-- a history of parses (and materialisations) that share one context object: the materializer's
+layered context, or a mapping the caller built. Every step carries its own string; the context after
+the history is reported by its keys. -/
+def handleHistory (j : Json) : Json :=
+  let L := layersOf j
+  let codes := codesOf j
+  let explicit : Option (List String) := match jval j "explicit" with
+    | .arr a => some (a.toList.map asStr)
+    | _ => none
+  let own : LMap.Layer String := .dict (layerOf "parser" (strs j "own"))
+  let caller : LMap.Layer String := match jstr j "target" with
+    | "materializer" => L.lm.toLayer
+    | _ => ctxOf (jval j "caller")
+  let steps := jarr j "steps"
+  let (results, after) := Dot.parseHistory (fun cs =>
+      -- the normal forms of the Python tokens of all steps, in one table
+      (C01.envOf j).norm cs) codes explicit own caller (steps.map C01.charInfos)
+  let stepJ (r : Except ParseErr Val) : Json := match r with
+    | .error e => C01.errJ e
+    | .ok v =>
+      let ps := poolParts ((Dot.parts v).map (Dot.partFactors codes))
+      Json.mkObj [("formula", C01.valJ v), ("full", runJ L ps), ("parts", partsJ L codes v)]
+  Json.mkObj [("steps", jlist (results.map stepJ)), ("keys", jstrs after.keys)]
+
 def handle (j : Json) : Json :=
   match jstr j "op" with
   | "formula" => handleFormula j
   | "dot" => handleDot j
+  | "history" => handleHistory j
   | _ => jerr "bad-op"
 
 end FormulaicVerif.Engines.C17
